@@ -641,7 +641,12 @@ func (h *harness) runConfLoad(t *testing.T, n int) {
 					if err := os.WriteFile(path, content, 0o644); err != nil {
 						panic("harness: " + err.Error())
 					}
-					return conf.Load(path, t, opts...)
+					err := conf.Load(path, t, opts...)
+					if err != nil && strings.Contains(err.Error(), path) {
+						// keep the scratch path out of the violation key
+						return errors.New(strings.ReplaceAll(err.Error(), path, "FILE"+strings.ToLower(ff.ext)))
+					}
+					return err
 				}}
 			h.evalOne(c, q)
 		}
